@@ -137,7 +137,9 @@ impl<'a> GenC<'a> {
         let op = self.rng.upto(4);
         match op {
             0 => {
-                let mut ids = self.subset(&names, true);
+                // (only S) with no identifier at all binds nothing
+                let nonempty = !self.rng.chance(1, 6);
+                let mut ids = self.subset(&names, nonempty);
                 self.rng.shuffle(&mut ids);
                 let mut v = vec![sym("only"), inner];
                 v.extend(ids.iter().map(|s| sym(s)));
